@@ -18,6 +18,10 @@ CLAIMED = {
    text="The class table (flag, pdu_type of a live instance, matches_flag for every flag, is_base_of for every class) is regenerated on every run by compiling and running a generated program against the current headers; Coq proves by complete evaluation of that finite table (forallb/vm_compute lifted with forallb_forall) that for every concrete class K and every askable class T a successful find_pdu/tins_cast implies K is-a T, and that a search by the exact class succeeds; the same program evaluates find_pdu, tins_cast and dynamic_cast on live objects for all pairs and the results are compared with the table-derived predictions. PDUCacher<X> refutes the property (theorem C13_cacher_refuted_by + witness) and is a recorded known finding.",
    note="Trusted: Coq kernel (vm_compute), translate/gen_classtable.py (header scan + generated C++), g++; classes without a default constructor and abstract classes (Dot11ControlTA, Dot11ManagementFrame, EAPOL) only appear as targets T, not as K.",
    tech="Coq proof by exhaustive evaluation of a generated finite table + live-object cross-check", ref="3/C13"),
+ 'C12': dict(
+   text="Coq theorems over an executable model of PDU/Packet ownership in which every layer object has an identity: for every program over 18 operations (construct, clone/copy, copy and move assignment, move construction, inner_pdu(ptr/ref), release_inner_pdu, operator/=, delete, field edits, Packet wrap/own/copy/move/release//=) every identity is live exactly once or destroyed exactly once (one owner, no double free, no leak once the roots are destroyed), parent links designate the owner, clones and copy-assignments are deep and equal to the source (including a shorter source), and an operation changes only the variables it names. The extracted model and real libtins objects (9 layer classes + Packet) run the same programs; an independent value-semantics reference, address-aliasing checks, ASan and LSan judge the C++ directly.",
+   note="Trusted: Coq kernel, extraction, harness/h_tree.cpp; object identities exist only in the model — in C++ ownership is observed through addresses, ASan and LSan, the allocator itself is not modelled; the moved-from object's own fields are unspecified and reset by the script. One genuine defect was repaired (fix: copy-assignment from a PDU without inner layers).",
+   tech="Coq proof (counting invariant over all programs) + model/code correspondence + reference oracle under ASan/LSan", ref="3/C12"),
 }
 ALL = ['C%02d' % i for i in range(1, 20)]
 NA_REASON = "check not built yet in this session (machinery is being extended property by property; see DESIGN.md section 7)"
